@@ -3,4 +3,4 @@ From GW Require Import Base Route PropFind.
 Extraction Language OCaml.
 Extraction "model_c11.ml" new_propfind_response response_agrees accounted_b answer_agrees
   dav_model dav_spec tree_ok hier_model hier_spec hier_ok backend_of principal_model principal_spec
-  segs_ok req_path spell_prefix rid.
+  segs_ok req_path spell_prefix rid nul_free.
